@@ -146,7 +146,7 @@ Qed.
 
 Lemma zset_of_In x l : In x (zset_of l) <-> In x l.
 Proof.
-  unfold zset_of. rewrite <- dedup_In. split; intro H.
+  unfold zset_of. rewrite <- (dedup_In x l). split; intro H.
   - eapply Permutation_in; [apply isort_perm|exact H].
   - eapply Permutation_in; [symmetry; apply isort_perm|exact H].
 Qed.
